@@ -112,8 +112,8 @@ def r3(ctx):
         b = cands[0]
         ctx.functions.add(b.path)
         n += 1
-        oks = result_aggs(b, "Ok")
-        if len(oks) != 1 or result_aggs(b, "Err"):
+        oks = result_aggs(b, "Ok", own_return=False)
+        if len(oks) != 1 or result_aggs(b, "Err", own_return=False):
             yield VIOL("C15-R3", "into_request_bytes/%s/shape" % ty, "conversion for %s is not a single Ok(..)" % ty, where=loc(b.j["span"]))
             continue
         sl = b.slice_op(oks[0][2]["rv"]["ops"][0])
